@@ -596,6 +596,10 @@ func (r *scanner) checkCompactRace(ctx context.Context, revision uint64, compact
 	if compact {
 		// compact operation, just try to set the compact revision
 		// if it's error, try next time
+		if val, err := r.store.Get(ctx, r.config.CompactKey); err == nil && len(val) == 8 && binary.BigEndian.Uint64(val) > revision {
+			// a later revision has been compacted already, never move the compact revision backwards
+			return nil
+		}
 		bs := make([]byte, 8)
 		binary.BigEndian.PutUint64(bs, revision)
 		batch := r.store.BeginBatchWrite()
